@@ -531,10 +531,10 @@ def parts(tier):
     return [
         EnumPart('bundled-file', run_bundled, check_bundled),
         EnumPart('words', run_words, check_word),
-        HypPart('word-draws', WORDS, check_word, 800, 40000),
-        HypPart('buffers', BUFFERS, check_buffer, 400, 8000),
-        HypPart('files-small', small_files(), check_file, 800, 16000),
-        HypPart('files', general_files(), check_file, 1000, 12800),
+        HypPart('word-draws', WORDS, check_word, 2000, 40000),
+        HypPart('buffers', BUFFERS, check_buffer, 800, 8000),
+        HypPart('files-small', small_files(), check_file, 1600, 16000),
+        HypPart('files', general_files(), check_file, 2000, 12800),
     ]
 
 
